@@ -2,4 +2,4 @@
     Directives: ExtrOcamlBasic only. *)
 From Coq Require Import ExtrOcamlBasic.
 From Qv Require Import Common.Bytes Model.SpfBase Model.SpfEnv Model.SpfMacro Model.Spf Model.SpfZone Spec.SpfSpec Spec.SpfRfc.
-Extraction "m.ml" check_host_c spfreceived decode_zone zone_dns queries_of spec_ok_C11 has_exp_mod sess_ok octets_to_N addr_octets rfc_check_host rfc_agrees.
+Extraction "m.ml" check_host_c spfreceived decode_zone zone_dns queries_of spec_ok_C11 has_exp_mod sess_ok octets_to_N addr_octets rfc_check_host rfc_check_host_strict rfc_agrees.
